@@ -377,7 +377,48 @@ func sameClass(want, got string) bool {
 // the race runtime that no user-level seam controls (random dropping of
 // sync.Pool puts, shadow-cell eviction): a race class counts as reproduced
 // when it recurs in at least 2 of 3 fresh executions of the plan.
+// selfDisagreement executes a plan up to n times and reports two executions whose results differ.
+func (c *Check) selfDisagreement(p *plan.Plan, n int) *Violation {
+	var first *plan.Outcome
+	for i := 0; i < n; i++ {
+		pr := c.env.Run(p)
+		if pr.Outcome == nil || !pr.Outcome.Done {
+			continue
+		}
+		if first == nil {
+			first = pr.Outcome
+			continue
+		}
+		for k := range pr.Outcome.Ops {
+			if k >= len(first.Ops) {
+				break
+			}
+			a, b := first.Ops[k], pr.Outcome.Ops[k]
+			if a.Rec == nil || b.Rec == nil || a.Digest == b.Digest {
+				continue
+			}
+			fields := a.Rec.Diff(b.Rec)
+			det := fmt.Sprintf("%s returned different results in two executions of the same plan (fresh processes, same seed, same code) — differs in %v", describeOp(p, a.Task, a.Op), fields)
+			for _, f := range fields {
+				det += "\n  " + f + ": run A " + head(fieldOf(a.Rec, f), 300) + "\n  " + strings.Repeat(" ", len(f)) + "  run B " + head(fieldOf(b.Rec, f), 300)
+			}
+			if len(c.env.Uncontrol) > 0 {
+				det += "\n  uncontrolled sources in this tree: " + strings.Join(c.env.Uncontrol, "; ")
+			}
+			return &Violation{Property: "C11", Oracle: "self-disagreement", Task: a.Task, Op: a.Op, Class: "nondeterministic:" + strings.Join(fields, "+"), Detail: det, Dimension: p.Batch, Plan: p}
+		}
+	}
+	return nil
+}
+
 func (c *Check) reproduces(p *plan.Plan, class string) *Violation {
+	if strings.HasPrefix(class, "nondeterministic:") {
+		v := c.selfDisagreement(p, 12)
+		if v != nil {
+			v.Class = class
+		}
+		return v
+	}
 	tries, need := 1, 1
 	if strings.HasPrefix(class, "race:") {
 		tries, need = 3, 2
@@ -438,6 +479,9 @@ func dimensions(p *plan.Plan) []string {
 	}
 	if len(p.Schedule.Stalls) > 0 {
 		d = append(d, "clock")
+	}
+	if len(p.Schedule.Gaps) > 0 && len(p.Tasks) <= 1 {
+		d = append(d, "schedule")
 	}
 	if p.Sink != "" && p.Sink != "null" {
 		d = append(d, "sink")
@@ -894,6 +938,7 @@ func runCheck(prop, tier string, seed uint64, workers, budgetOverride int, keep,
 	env.Workers = workers
 	env.sem = make(chan struct{}, workers)
 	env.Keep = false
+	env.forProperty(prop)
 	c := newCheck(prop, tier, seed, env)
 
 	guardErr := make(chan error, 1)
@@ -1261,6 +1306,14 @@ func (c *Check) confirm(v *Violation) *Violation {
 					break
 				}
 			}
+		}
+	}
+	if nv == nil && c.prop == "C11" {
+		// Not the same mismatch again — is the plan's outcome stable at all? Identical plan, identical
+		// code, fresh processes: two different results are a violation of C11 by themselves, whatever
+		// the reference says (typical cause: goroutines the library starts itself).
+		if sv := c.selfDisagreement(v.Plan, 8); sv != nil {
+			return sv
 		}
 	}
 	if nv == nil {
